@@ -763,6 +763,7 @@ def analyse(task):
 # Python-side oracle for one described object
 
 _FILE_LINES = {}
+env_skipped = [0]
 
 
 def file_lines(path):
@@ -927,8 +928,8 @@ def build_src_case(code, r, token_text):
         obs = None if d['def_start'] is None or d['def_end'] is None else (d['def_start'], d['def_end'])
         rng_items.append('(%d%%N, %d%%N, %s, %s, %s)' % (
             d['line'], d['column'],
-            g_opt(d['def_path'], lambda p: g_list(p, common.g_nat, 'nat')), g_bool(fc),
-            g_opt(obs, lambda o: '(%s, %s)' % (g_pos(o[0]), g_pos(o[1])))))
+            '(@None (list nat))' if d['def_path'] is None else '(Some %s)' % g_list(d['def_path'], common.g_nat, 'nat'), g_bool(fc),
+            '(@None (pos * pos))' if obs is None else '(Some (%s, %s))' % (g_pos(obs[0]), g_pos(obs[1]))))
     ranges = '[' + '; '.join(rng_items) + ']' if rng_items else '(@nil (N * N * option (list nat) * bool * option (pos * pos)))'
     objs, seen = [], set()
     for d in r.get('api', []):
@@ -1158,6 +1159,9 @@ def stream_corpus_names(ctx):
     res = common.pmap(_corpus_names_task, [(p, ctx.rng.randrange(1 << 30)) for p in chosen], chunksize=1)
     n_tok = 0
     for r in res:
+        if 'fatal' in r and is_env_crash(r['fatal']):
+            env_skipped[0] += 1      # K1-K4 (absent typeshed): C01's subject
+            continue
         if 'fatal' in r:
             ctx.deviation(dict(stream='corpus', exc=r['fatal']['exc'], site=r['fatal']['site']), dict(path=r['path'], error=r['fatal']),
                           'get_names / position accessors raised %s on %s' % (r['fatal']['exc'], r['path']))
@@ -1322,6 +1326,9 @@ def stream_generated(ctx):
     items = []
     nerr = 0
     for t, m, r in zip(tasks, metas, results):
+        if 'fatal' in r and is_env_crash(r['fatal']):
+            env_skipped[0] += 1      # K1-K4 (absent typeshed): C01's subject
+            continue
         if 'fatal' in r:
             ctx.deviation(dict(stream='names', exc=r['fatal']['exc'], site=r['fatal']['site']),
                           dict(source=t['code'], error=r['fatal']), 'get_names / position accessors raised %s' % r['fatal']['exc'])
@@ -1390,6 +1397,9 @@ def stream_api(ctx):
     results = common.pmap(analyse, tasks, chunksize=1)
     items, via_counts, where_counts, skipped = [], {}, {}, {}
     for t, m, r in zip(tasks, metas, results):
+        if 'fatal' in r and is_env_crash(r['fatal']):
+            env_skipped[0] += 1      # K1-K4 (absent typeshed): C01's subject
+            continue
         if 'fatal' in r:
             ctx.deviation(dict(stream='api', exc=r['fatal']['exc'], site=r['fatal']['site']),
                           dict(source=t['code'], error=r['fatal']), 'Script / get_names raised %s' % r['fatal']['exc'])
@@ -1442,6 +1452,9 @@ def stream_special(ctx):
     shown = common.coq_show(IMPORTS, trees, defs=DEFS)
     verdicts = re.findall(r'=\s*(true|false)', shown)
     for t, r, v in zip(tasks[:len(srcs)], results, verdicts + ['?'] * len(tasks)):
+        if 'fatal' in r and is_env_crash(r['fatal']):
+            env_skipped[0] += 1      # K1-K4 (absent typeshed): C01's subject
+            continue
         if 'fatal' in r:
             ctx.deviation(dict(stream='special', exc=r['fatal']['exc']), dict(source=t['code'], error=r['fatal']), 'Script raised')
             continue
@@ -1505,6 +1518,7 @@ def run(ctx):
             raise RuntimeError('coq evaluation failed (%s): %s' % (p.label, err))
         p.on_fail(fails)
     ctx.stat('wall_coq_evaluation', round(time.time() - t, 1))
+    ctx.stat('sources_skipped_for_environment_crash_classes', env_skipped[0])
     ctx.stat('coq_cases', {p.label: len(p.cases) for p in pend})
 
 
